@@ -15,6 +15,7 @@ package main
 //   c:<o>:<id>                operator o acknowledged its aligned checkpoint id
 //   p:<id>                    job checkpoint id became the job's current checkpoint (file written)
 //   k:<w>                     worker w halted
+//   x:<w>                     worker w stopped itself (its source runner met an unreachable operator)
 //   R:<n>:<ck>:<c0.c1...>:<j|w>  deployment finished: n workers, restored from checkpoint ck with these cursors
 //   L:<n>:<ck>:<c0.c1...>:<j|w>  the same, but a node process of the new assembly had been deployed before (D39)
 //   z...                      activity of a halted worker (ignored by the model)
@@ -56,7 +57,7 @@ import (
 // grace periods: a wait that expires only reduces coverage (the op reports what happened so far)
 var (
 	c01Grace     = 3 * time.Second
-	c01GateGrace = 400 * time.Millisecond
+	c01GateGrace = 1500 * time.Millisecond
 )
 
 const c01Heartbeat = 5 // seconds
@@ -852,8 +853,23 @@ func (o *c01OpClient) UpdateRetainedCheckpoints(ctx context.Context, ids []uint6
 	// over RPC a panic of the handler is recovered by the server and the caller sees an error
 	defer func() {
 		if p := recover(); p != nil {
+			msg := fmt.Sprint(p)
 			o.w.mu.Lock()
-			o.w.notes["panic:UpdateRetainedCheckpoints"]++
+			if !o.target.w.Operator.VerifReady() {
+				// the job sends the retention update to its newest assembly, whose operators may not be deployed yet:
+				// HandleRemoveCheckpoints dereferences the nil database (finding D59; harmless for the keyed state:
+				// over RPC the server recovers the panic and the job ignores the error)
+				o.w.notes["D59: retention update reached an operator that is not deployed (nil database)"]++
+			} else if strings.Contains(msg, "db missing the job's retained checkpoints") {
+				// the database's deliberate rejection of a retention request that names only checkpoints it never
+				// had (the job announces a checkpoint of the previous deployment to the operators of the new one)
+				o.w.notes["retention request rejected: operator never had the announced checkpoint"]++
+			} else {
+				if len(msg) > 80 {
+					msg = msg[:80]
+				}
+				o.w.log("!panic:UpdateRetainedCheckpoints:%s", strings.ReplaceAll(msg, " ", "_"))
+			}
 			o.w.mu.Unlock()
 			err = fmt.Errorf("panic: %v", p)
 		}
@@ -994,8 +1010,20 @@ func (w *c01World) newWorker() *c01Worker {
 	ctx, cancel := context.WithCancel(context.Background())
 	wk.cancel = cancel
 	go func() {
-		defer func() { recover() }()
-		wk.w.Start(ctx)
+		func() {
+			defer func() { recover() }()
+			wk.w.Start(ctx)
+		}()
+		// the worker process ended. If nobody halted it, it stopped itself (fail-fast: its source runner got an
+		// error from an unreachable operator, which cancels the whole worker): from now on it is as dead as a
+		// halted one.
+		w.mu.Lock()
+		if !wk.killed.Load() {
+			wk.killed.Store(true)
+			w.log("x:%d", wk.num)
+			w.dropAcksLocked(wk)
+		}
+		w.mu.Unlock()
 	}()
 	return wk
 }
